@@ -207,6 +207,7 @@ ERRORS = ["missing_config", "invalid_yaml", "yaml_wrong_type", "missing_source_d
 def error_work(job):
     built, kind, mode = job[:3]
     with_lock = job[3] if len(job) > 3 else False
+    cwd_trap = job[4] if len(job) > 4 else False
     res = {"evaluations": 1, "nontrivial": [], "violations": [], "samples": [], "inconclusive": {}, "counters": {}}
     with core.Box(tag="c16e") as box:
         for rel, data in FILES_MISSING.items():
@@ -260,23 +261,34 @@ def error_work(job):
         elif kind == "empty_source_dir":
             os.makedirs(os.path.join(box.proj, "emptysrc"))
             box.write("Breadlog.yaml", core.make_config(source_dir="emptysrc"))
+        cwd = None
+        if cwd_trap:
+            # invoked from an unrelated directory that happens to hold everything the broken configuration lacks: a valid
+            # Breadlog.yaml, and directories called src, nowhere, emptysrc with source files in them - none of it may be used
+            cwd = os.path.join(box.root, "invoked-from-here")
+            for d in ("src", "nowhere", "emptysrc", "src/a.rs"):
+                os.makedirs(os.path.join(cwd, d), exist_ok=True)
+                with open(os.path.join(cwd, d, "lookalike.rs"), "wb") as f:
+                    f.write(b'fn t() {\n    info!("look-alike in the invocation directory");\n}\n')
+            with open(os.path.join(cwd, "Breadlog.yaml"), "w") as f:
+                f.write(core.make_config())
         before = core.snapshot(box.root)
-        r = core.run_breadlog(built, box, cfgp, check=(mode == "check"))
+        r = core.run_breadlog(built, box, cfgp, check=(mode == "check"), cwd=cwd)
         after = core.snapshot(box.root)
     if r.panicked():
         res["inconclusive"]["run-crashed (C17's business)"] = 1
         return res
-    res["nontrivial"].append("error|%s|%s|lock=%s" % (kind, mode, with_lock))
+    res["nontrivial"].append("error|%s|%s|lock=%s|cwdtrap=%s" % (kind, mode, with_lock, cwd_trap))
     kind0 = kind
-    kind = kind + ("+lock" if with_lock else "")
+    kind = kind + ("+lock" if with_lock else "") + ("+lookalikes-in-cwd" if cwd_trap else "")
     res["counters"]["error_exits"] = 1
     diff = core.snap_diff(before, after, meta=False)
     if r.rc == 0 or r.sig:
         res["violations"].append({"signature": "C16.error-exit-status|%s|%s" % (kind, mode), "detail": {"end": r.ended(), "stdout": r.out[-300:]},
-                                  "case": {"error": kind0, "mode": mode, "with_lock": with_lock}})
+                                  "case": {"error": kind0, "mode": mode, "with_lock": with_lock, "cwd_trap": cwd_trap}})
     if diff:
         res["violations"].append({"signature": "C16.error-run-changed-files|%s|%s" % (kind, mode), "detail": {"diff": diff},
-                                  "case": {"error": kind0, "mode": mode, "with_lock": with_lock}})
+                                  "case": {"error": kind0, "mode": mode, "with_lock": with_lock, "cwd_trap": cwd_trap}})
     return res
 
 
@@ -297,7 +309,7 @@ def main(tier):
                 jobs.append((built, p, form))
     for res in frame.pmap(work, jobs, chunksize=8):
         ck.absorb(res)
-    for res in frame.pmap(error_work, [(built, k, m, wl) for k in ERRORS for m in MODE for wl in (False, True)]):
+    for res in frame.pmap(error_work, [(built, k, m, wl, ct) for k in ERRORS for m in MODE for wl in (False, True) for ct in (False, True)]):
         ck.absorb(res)
     ck.exhaustive = True
     ck.extra["product_points"] = len(points)
@@ -318,7 +330,7 @@ def replay_witness(w, ck=None, built=None):
     if "point" in c:
         v, _, _, _ = run_point(built, tuple(c["point"]), c.get("cfgform", "absolute"))
         return bool(v) and v != "c03"
-    r = error_work((built, c["error"].replace("+lock", ""), c["mode"], c.get("with_lock", c["error"].endswith("+lock"))))
+    r = error_work((built, c["error"].replace("+lock", ""), c["mode"], c.get("with_lock", c["error"].endswith("+lock")), c.get("cwd_trap", False)))
     return bool(r["violations"])
 
 
